@@ -298,6 +298,23 @@ def run(tier, seed, only=None):
                     if not close(out, r, rtol=1e-9, atol=1e-10):
                         b.fail(f"C16.layers.{fn.__name__}.value", desc, "differs from exp(x)/sum(exp(x))")
                 b.case(desc)
+        # integer inputs of every width, values spread over the whole range of the type (the formula is evaluated in floating point)
+        for dt, vals in ((np.uint8, [[1, 2, 250], [0, 255, 128]]), (np.int8, [[-128, 127, 0], [100, -100, 5]]), (np.int16, [[-32768, 32767, 0]]), (np.uint16, [[0, 65535, 7]]), (np.int64, [[-3, 0, 4], [10, 11, 9]])):
+            xi = np.array(vals, dtype=dt)
+            xf = xi.astype(float)
+            e = np.exp(xf - xf.max(axis=-1, keepdims=True))
+            ref = e / e.sum(axis=-1, keepdims=True)
+            desc = dict(layer="softmax", x_dtype=np.dtype(dt).name, x=xi.tolist())
+            for fn, r in ((nn.softmax, ref), (nn.logsoftmax, xf - xf.max(axis=-1, keepdims=True) - np.log(e.sum(axis=-1, keepdims=True)))):
+                b.count(fn.__name__ + "[integer input]")
+                try:
+                    out = fn(xi).data
+                except Exception as ex:
+                    b.fail(f"C16.layers.{fn.__name__}.raises", desc, f"{type(ex).__name__}: {ex}")
+                    continue
+                if not close(out, r, rtol=1e-9, atol=1e-12):
+                    b.fail(f"C16.layers.{fn.__name__}.integer_input", desc, f"got {np.asarray(out).tolist()}, formula gives {r.tolist()}")
+            b.case(desc)
         big = np.array([[1000.0, 1001.0, 999.0]])
         b.case(dict(layer="softmax", x="large values"))
         if not close(nn.softmax(big).data, np.exp(big - 1001) / np.exp(big - 1001).sum()):
@@ -328,6 +345,25 @@ def run(tier, seed, only=None):
                     if not close(got, ref, rtol=1e-8, atol=1e-10):
                         b.fail(f"C16.layers.{nm}.value", desc, f"got {np.asarray(got).tolist()} expected {np.asarray(ref).tolist()}")
                 b.case(desc)
+        # integer-valued scores (the layers accept them; the formulas are evaluated in floating point)
+        for dt, vals, ys in ((np.uint8, [[1, 2, 250], [0, 255, 128]], [2, 1]), (np.int8, [[-128, 127, 0], [100, -100, 5]], [1, 0]), (np.int16, [[-32768, 32767, 0]], [1]), (np.int64, [[-3, 0, 4], [10, 11, 9]], [0, 2]), (np.uint8, [[3, 1, 2]], [1])):
+            xi, y = np.array(vals, dtype=dt), np.array(ys)
+            xf = xi.astype(float)
+            lsm = xf - xf.max(axis=1, keepdims=True) - np.log(np.exp(xf - xf.max(axis=1, keepdims=True)).sum(axis=1, keepdims=True))
+            N = len(ys)
+            desc = dict(layer="losses", x_dtype=np.dtype(dt).name, x=xi.tolist(), y=ys)
+            ref_ce = sum(-lsm[n, y[n]] for n in range(N)) / N
+            ref_f = np.array([-(1 - np.exp(lsm[n, y[n]])) ** 1.0 * lsm[n, y[n]] for n in range(N)])
+            for nm, fn, ref in (("softmax_crossentropy", lambda: nn.softmax_crossentropy(xi, y).data, ref_ce), ("softmax_focal_loss", lambda: nn.softmax_focal_loss(xi, y, alpha=1, gamma=1).data, ref_f)):
+                b.count(nm + "[integer scores]")
+                try:
+                    got = fn()
+                except Exception as ex:
+                    b.fail(f"C16.layers.{nm}.raises", desc, f"{type(ex).__name__}: {ex}")
+                    continue
+                if not close(got, ref, rtol=1e-8, atol=1e-10):
+                    b.fail(f"C16.layers.{nm}.integer_input", desc, f"got {np.asarray(got).tolist()} expected {np.asarray(ref).tolist()}")
+            b.case(desc)
         for N in (1, 3):
             for shape in ((N,), (N, 2)):
                 x1, x2 = rng.normal(size=shape), rng.normal(size=shape)
